@@ -96,6 +96,11 @@ class RealWriter:
         buf = np.ascontiguousarray(data)
         return self.lib.digital_rf_write_blocks_hdf5(self.obj, g, b, len(G), buf.ctypes.data_as(ctypes.c_void_p), len(data))
 
+    def cursor(self):
+        """the writer object's next-sample cursor (what the Python extension returns from a write)"""
+        self.lib.verif_peek_global_index.restype = ctypes.c_uint64; self.lib.verif_peek_global_index.argtypes = [ctypes.c_void_p]
+        return int(self.lib.verif_peek_global_index(self.obj))
+
     def last_file(self):
         p = self.lib.digital_rf_get_last_file_written(self.obj)
         return ctypes.string_at(p).decode()
@@ -127,6 +132,8 @@ def run_history(build, cfg, history, read_back=True, keep=False):
                 if got != 0 and want == 0: break
             if got == 0 and want == 0:
                 for j in range(vlen): values[(ci, j)] = int(data[j, 0])
+                if rw.cursor() != ref.cursor:
+                    diffs.append('call %d: next-sample cursor %d after the call, expected %d' % (ci, rw.cursor(), ref.cursor))
                 lf = rw.last_file()
                 k_last = ref.cursor - 1 + cfg['start']
                 if not lf.endswith(ref.window(k_last)[0]):
